@@ -69,6 +69,28 @@ def cases(rng, quick, gr):
         for hdr in ["0:2", "0:3", "1:6:2"]:
             for body in ["Op(1) | i", "Op | [0, i]", "MeasureX | (i, 1)", "Op(A[i]) | 0"]:
                 yield {"tag": "loop-range-mode", "text": HDR + DECLS + "for %s i in %s\n    %s\n" % (ty, hdr, body)}
+    # 5c. calls of included programs with the wrong number of modes or the wrong keyword arguments
+    import os
+    import shutil
+    import tempfile
+    d = tempfile.mkdtemp(prefix="bbverif.", dir="/var/tmp")
+    try:
+        subs = {os.path.join(d, "sub.xbb"): "name sub\nversion 1.0\nVac | 4\nBSgate(0.5, 0.1) | [4, 7]\n",
+                os.path.join(d, "tsub.xbb"): "name tsub\nversion 1.0\nRgate({a}) | 1\nSgate({a}, {b}) | [0, 1]\n",
+                os.path.join(d, "one.xbb"): "name one\nversion 1.0\nVac | 9\n"}
+        for pth, txt in subs.items():
+            with open(pth, "w") as f:
+                f.write(txt)
+        inc = "".join('include "%s"\n' % pth for pth in subs)
+        calls = ["sub | [2, 3, 3]", "sub | [2, 3, 2]", "sub | [2, 3, 4]", "sub | 2", "sub | [3, 3, 3]", "one | [1, 1]", "one | [0, 1]",
+                 "sub(a=1) | [2, 3]", "one(x=0.5) | 3", "tsub | [2, 3]", "tsub(a=1) | [2, 3]", "tsub(b=1) | [2, 3]",
+                 "tsub(a=1, b=2, c=3) | [2, 3]", "tsub(a=1, c=2) | [2, 3]", "tsub(1, 2) | [2, 3]", "tsub(a=1, b=2) | [2, 3, 3]",
+                 "tsub(a=1, b=2) | 2", "for int i in 0:2\n    sub | [i, i + 1, i + 1]", "for int i in 0:2\n    tsub(a=i) | [i, i + 1]"]
+        for c in calls:
+            for pre in ["", "Vac | 0\n"]:
+                yield {"tag": "include-call", "text": "name f\nversion 1.0\n" + inc + "\n" + pre + c + "\nVac | 5\n", "files": dict(subs)}
+    finally:
+        shutil.rmtree(d, ignore_errors=True)
     # 6. one fault injected into random valid scripts (undefined name replacing a random NAME-free literal slot)
     n = 250 if quick else 15000
     for i in range(n):
@@ -94,7 +116,7 @@ def run(tier, seed):
         rule="fault class x syntactic slot matrix: undefined names (positional, keyword, list element, mode, array index, array name, "
              "loop list, loop body, metadata option, scalar and array declaration, nested expression) at several statement positions; "
              "reserved names qN/name/version/target/type as scalar and array names; float/complex/string modes (literal, variable, "
-             "computed); literal or computed complex values into int/float scalars and arrays; loop values not of the loop type; one "
+             "computed); literal or computed complex values into int/float scalars and arrays; loop values not of the loop type; calls of included programs with too few / too many / repeated surplus modes and missing, extra or misnamed keyword arguments; one "
              "undefined name injected into random valid scripts. The model must refuse (theorem: a non-Ok sub-result never becomes Ok) "
              "and the implementation must raise; for undefined/reserved names a BlackbirdSyntaxError naming identifier, line, column")
 
